@@ -534,8 +534,9 @@ class DocumentationAggregator(CMakeListener):
 
         cleaned_lines = []
         for line in lines:
-            # Remove global indent from left side
-            cleaned_line = line[num_spaces:]
+            # Remove global indent from left side, but only whitespace: the first
+            # line starts at the comment token itself and carries no indentation
+            cleaned_line = line[:num_spaces].lstrip() + line[num_spaces:]
             # Remove all hash marks and brackets from the left side only
             cleaned_line = cleaned_line.lstrip("#[]")
             # String is not empty and first character is a space
